@@ -296,6 +296,17 @@ Theorem c11_query_in_transaction : forall st,
 Proof. intros [[]|n|]; reflexivity. Qed.
 Print Assumptions c11_query_in_transaction.
 
+(* a result set that fails on its first Next is NOT an empty result: the driver's error comes back (whatever it
+   is), ErrNotFound only for a clean empty result; the destination is untouched either way. Issued as the body
+   of Transact, the failing query rolls the transaction back and its error reaches the caller. *)
+Theorem c11_failing_result_is_not_not_found : forall e d,
+  unmarshal_row_no_next (Some e) d = (d, Err e) /\
+  unmarshal_row_no_next None d = (d, Err ENotFound) /\
+  (forall sh strict cols, unmarshal_row sh strict cols [] d = unmarshal_row_no_next None d) /\
+  transact default_switches no_faults (body_of_query (Err e)) = (Some (EBody e), [Begin true; Rollback true]).
+Proof. intros e d. repeat split. Qed.
+Print Assumptions c11_failing_result_is_not_not_found.
+
 (* ------------------------------------------------------------------ the breaker around conn queries *)
 
 (* ErrNotFound stays ErrNotFound under repetition: on one breaker-guarded conn, a run of ANY length of
@@ -384,6 +395,16 @@ Example c11_mixed_example :
     ([Some (LInt 1); Some (LStr "s"); Some (LInt 3)], Ok tt) /\
   fill_struct ex_mixed2 true ["y"; "x"; "q"] [CInt 1; CStr "s"; CInt 3] (init_dest (unwrap_fields ex_mixed2)) =
     ([Some (LInt 1); Some (LStr "s"); Some (LInt 3)], Ok tt).
+Proof. repeat split. Qed.
+
+(* tag OPTIONS (lib/store/builder style): the column name is the part before the first comma *)
+Example c11_tag_options :
+  parse_tag_name "id,type=char,length=16" = "id" /\ parse_tag_name "name, optional" = "name" /\
+  parse_tag_name ",type=char" = "" /\
+  let fs := [FLeaf "id,type=char,length=16" false KInt; FLeaf "name,range=[1:10]" true KStr] in
+  all_tagged fs = true /\
+  fill_struct fs true ["name"; "id"] [CStr "n"; CInt 7] (init_dest (unwrap_fields fs)) =
+    ([Some (LInt 7); Some (LStr "n")], Ok tt).
 Proof. repeat split. Qed.
 
 (* tags and column names are compared exactly as written: case matters *)
